@@ -92,6 +92,7 @@ def plan(tier, seed):
                 scs.append(dict(kind='typing', n=n, g=gi, t0=t0))
     for gi in range(len(graphs(5))):
         scs.append(dict(kind='typing', n=5, g=gi, t0=None))
+    scs += [dict(kind='large', case=i) for i in range(3)]
     return dict(scenarios=scs, exhaustive=True, chunk=2,
                 menus=dict(graphs={n: len(graphs(n)) for n in range(2, nmax + 1)}, presentations=['canonical', 'all reversed', 'every single-edge reversal', 'list reversed', 'list rotated', 'duplicate bond (either direction)'],
                            type_alphabet=TYPES, assignments='all 6^n for n<=4; for n=5 all 3^5 assignments of {H_, C_3, O_3} + %d covering assignments of the 6-type alphabet' % (len(cover5()) - 243), exclusion='every subset of atoms for n<=4; {none, first 4 atoms, all} for n=5',
@@ -229,9 +230,44 @@ def run_typing(n, edges, types, exclude, pres, perm, sc, out):
     return bad
 
 
+def large_case(i):
+    """(n, edges, types, exclude): structures beyond the small bound"""
+    K = [k for k in REF.K if k != 'Du' and k[0:2].replace('_', '') in ATOMIC_MASSES]
+    if i == 0:
+        # 400 disconnected 4-atom chains a-C_3-C_3-d / a-C_1-C_3-d with all-different end-type pairs: > 257 dihedral types,
+        # undefined (sp centre) torsion types first seen early, in the middle and at the very end
+        edges = []; types = []
+        L = len(K)
+        for c in range(400):
+            b = 4 * c; edges += [(b, b + 1), (b + 1, b + 2), (b + 2, b + 3)]
+            centre = 'C_1' if c in (50, 300, 340, 399) else 'C_3'
+            types += [K[c % L], centre, 'C_3', K[(7 * c + 3 + 11 * (c // L)) % L]]
+        seqs = {min(t, t[::-1]) for t in (tuple(types[4 * c:4 * c + 4]) for c in range(400))}
+        assert len(seqs) > 380, len(seqs)
+        return 4 * 400, edges, types, None
+    if i == 1:
+        # one C_3 six-ring plus 160 diatomic fragments; a large, sparse exclusion set that touches no ring atom
+        edges = [(j, (j + 1) % 6) for j in range(6)] + [(6 + 2 * j, 7 + 2 * j) for j in range(160)]
+        types = ['C_3'] * 6 + ['C_3', 'H_'] * 160
+        return 326, edges, types, list(range(6, 316, 13)) + [7, 8]
+    # a long alkane-like chain of 300 atoms with methyl-like branches: many terms, exclusion of a contiguous block
+    edges = [(j, j + 1) for j in range(199)] + [(j, 200 + j) for j in range(100)]
+    types = ['C_3'] * 200 + ['H_'] * 100
+    return 300, edges, types, list(range(50, 120))
+
+
 def run(sc, ctx):
     out = dict(evals=0, compared=0, violations=[], outcomes={}, states=0, nontrivial=0)
     oc = out['outcomes']
+    if sc['kind'] == 'large':
+        n, edges, types, ex = large_case(sc['case'])
+        for pres in (0, 1):
+            bad = run_typing(n, edges, types, ex, pres, list(range(n)), sc, out)
+            out['states'] += 1
+            for clause, msg in bad[:2]:
+                out['violations'].append(viol('typing', 'large:' + clause, 'structure of %d atoms / %d bonds (large case %d, presentation %d): %s' % (n, len(edges), sc['case'], pres, msg[:600]), sc))
+        oc['large typing'] = 1; out['nontrivial'] += 2
+        return out
     if sc['kind'] == 'enum':
         n = sc['n']
         for edges in graphs(n)[sc['lo']:sc['hi']]:
